@@ -1,7 +1,7 @@
 (* C08  Bytes sent to the terminal arrive once, in order, or the loss is flagged.
    The port model is polymorphic in the payload: the theorems hold for bytes carrying any ghost tag. *)
 From Coq Require Import ZArith List Bool.
-From Dmd Require Import Model.Bits Model.Fifo Model.Mem Model.Duart Proofs.FifoProofs Proofs.PortProofs Proofs.DuartProofs Proofs.DeviceRefine Model.Bus Proofs.BusDuart Gen.GenDuart Proofs.RegMapTie Gen.GenPort Proofs.PortTie.
+From Dmd Require Import Model.Bits Model.Fifo Model.Mem Model.Duart Proofs.FifoProofs Proofs.PortProofs Proofs.DuartProofs Proofs.DeviceRefine Model.Bus Proofs.BusDuart Gen.GenDuart Proofs.RegMapTie Gen.GenPort Proofs.PortTie Gen.GenCmd Proofs.CmdTie.
 Import ListNotations.
 Open Scope Z_scope.
 
@@ -146,3 +146,11 @@ Theorem C08_receiver_helpers_are_source_functions :
     enable_rx p = g_enable_rx p /\ disable_rx p = g_disable_rx p /\ rx_enabled p = g_rx_enabled p.
 Proof. intros A p. repeat apply conj; [apply enable_rx_is_source | apply disable_rx_is_source | apply rx_enabled_is_source]. Qed.
 Print Assumptions C08_receiver_helpers_are_source_functions.
+
+(* the command interpreter is the source's: Gen/GenCmd.v is Duart::handle_command translated statement by statement from
+   /repo/src/duart.rs on every run (per-port interrupt-status table, enable / disable arms, the command match with its
+   resets and break commands), and the model's handle_command equals it for every command byte, channel and state *)
+Theorem C08_command_interpreter_is_source_function :
+  forall cmd pn d, handle_command cmd pn d = g_handle_command cmd pn d.
+Proof. exact handle_command_is_source. Qed.
+Print Assumptions C08_command_interpreter_is_source_function.
